@@ -55,11 +55,16 @@ class VirtualLoop(asyncio.SelectorEventLoop):
         """cancel whatever is left and close the loop (call after inspecting tasks_created)"""
         asyncio.set_event_loop(self)
         try:
-            pending = [t for t in asyncio.all_tasks(self) if not t.done()]
-            for t in pending:
-                t.cancel()
-            if pending:
+            # repeat: cancelling a task can create new ones (e.g. the `finally` of pause_dispatching() restarts the dispatcher); a task
+            # left suspended on a closed loop would be finalised by the garbage collector in the middle of a later scenario
+            for _ in range(20):
+                pending = [t for t in asyncio.all_tasks(self) if not t.done()]
+                if not pending:
+                    break
+                for t in pending:
+                    t.cancel()
                 self.run_until_complete(asyncio.gather(*pending, return_exceptions=True))
+            self.run_until_complete(self.shutdown_asyncgens())
         finally:
             asyncio.set_event_loop(None)
             self.close()
